@@ -11,10 +11,13 @@ kv == <<kind, h, kprog, kn, kdone, kcanc, kafter>>
 KHandlers == { [hrecv |-> a, hsend |-> b, hdrain |-> d, hret |-> r] : a \in 0..2, b \in 0..2, d \in BOOLEAN, r \in {"ok", "err", "stall"} }
 \* a server-streaming handler that keeps sending until a Send fails (the client has gone away)
 KFlood == [hrecv |-> 1, hsend |-> 1, hdrain |-> FALSE, hret |-> "ok", hflood |-> TRUE]
-KInit == /\ kind \in {"server", "client"} /\ h \in (KHandlers \cup {KFlood}) /\ kprog = <<>> /\ kn = 0 /\ kdone = FALSE /\ kcanc = "no" /\ kafter = 0
+KInit == /\ kind \in {"server", "client", "unary"} /\ h \in (KHandlers \cup {KFlood}) /\ kprog = <<>> /\ kn = 0 /\ kdone = FALSE /\ kcanc = "no" /\ kafter = 0
          \* the framework reads the single request -- unless an interceptor rejects the call first (hrecv = 0)
          /\ (kind = "server" => ~h.hdrain /\ (h.hrecv = 1 \/ (h.hrecv = 0 /\ h.hsend = 0 /\ h.hret = "err")))
          /\ (kind = "client" => h.hsend = 1 /\ h # KFlood)            \* one response message
+         \* unary: CallUnary ("cu" = Send + CloseRequest + Receive + Receive + CloseResponse inside the library); the
+         \* connection-level events come from the verif hook VerifUnaryConnHook
+         /\ (kind = "unary" => h.hrecv = 1 /\ h.hsend = 1 /\ ~h.hdrain /\ h # KFlood)
 KBudget == kcanc = "no" \/ kafter < MaxAfter
 KOp(o) == kprog' = Append(kprog, [op |-> o]) /\ kafter' = IF kcanc = "no" THEN kafter ELSE kafter + 1
 \* a stalling handler only returns once the context ended: operations that wait for it need a cancellation first
@@ -27,11 +30,12 @@ KStep ==
   \/ /\ kind = "server" /\ Opened /\ ~kdone /\ KBudget /\ KWaits /\ KOp("closeresp") /\ kdone' = TRUE /\ UNCHANGED <<kind, h, kn, kcanc>>
   \/ /\ kind = "client" /\ ~kdone /\ kn < MaxSend /\ KBudget /\ KOp("send") /\ kn' = kn + 1 /\ UNCHANGED <<kind, h, kdone, kcanc>>
   \/ /\ kind = "client" /\ ~kdone /\ KBudget /\ KWaits /\ KOp("car") /\ kdone' = TRUE /\ UNCHANGED <<kind, h, kn, kcanc>>
+  \/ /\ kind = "unary" /\ ~kdone /\ KBudget /\ KWaits /\ KOp("cu") /\ kdone' = TRUE /\ UNCHANGED <<kind, h, kn, kcanc>>
   \/ /\ kcanc = "no" /\ ~kdone
      /\ \E how \in {"canceled", "expired"}, mode \in {"between", "during"} :
           kprog' = Append(kprog, [op |-> "cancel", how |-> how, mode |-> mode]) /\ kcanc' = how
      /\ UNCHANGED <<kind, h, kn, kdone, kafter>>
 KSpec == KInit /\ [][KStep]_kv
 KComplete == kdone \/ (kcanc # "no" /\ kafter >= 1)
-KEmit == KComplete => PrintT(ToJson([kind |-> kind, h |-> h, prog |-> kprog, msend |-> IF kind = "server" THEN 1 ELSE kn, mrecv |-> 3]))
+KEmit == KComplete => PrintT(ToJson([kind |-> kind, h |-> h, prog |-> kprog, msend |-> IF kind \in {"server", "unary"} THEN 1 ELSE kn, mrecv |-> 3]))
 =============================================================================
